@@ -11,11 +11,12 @@ macro_rules | `(tactic| hspecOld) => `(tactic| exact T.get)
 
 
 theorem inv_level {s : PState} (hi : Inv src s) (l : Int) : Inv src { s with exprLevel := l } :=
-  hi.congr rfl rfl rfl
+  hi.congr rfl rfl rfl rfl
 
 /-- what a comment token returned by the scanner satisfies w.r.t. the comments already listed -/
 @[reducible] def CommentFacts (a : Option (Nat × Token)) (s : PState) : Prop :=
-  ∀ p t, a = some (p, .comment t) → (∀ c ∈ s.comments.toList, c.pos < p) ∧ p < s.scan.pos
+  ∀ p t, a = some (p, .comment t) → (∀ c ∈ s.comments.toList, c.pos < p) ∧ p < s.scan.pos ∧
+    RealComment s.scan.src ⟨p, String.ofList t⟩
 
 theorem incExprLevel_spec : T src Tr incExprLevel (fun _ _ => True) := by
   unfold incExprLevel
@@ -28,13 +29,19 @@ theorem decExprLevel_spec : T src Tr decExprLevel (fun _ _ => True) := by
 theorem current_spec {R : PState → Prop} : T src R current (fun a s => a = s.current ∧ R s) :=
   T.read (fun s => s.current)
 
-theorem setCurrent_spec (c : Option (Nat × Token)) : T src Tr (setCurrent c) (fun _ _ => True) := by
-  unfold setCurrent
-  hoare
+/-- the current token is only ever set to a token of the source (or to nothing) -/
+theorem setCurrentReal_spec {R : PState → Prop} (c : Option (Nat × Token)) (hc : TokReal src c) :
+    T src R (setCurrent c) (fun _ _ => True) := by
+  intro s hi _
+  exact ⟨hi.setCurrent c hc, trivial⟩
 
-theorem takeCurrent_spec : T src Tr takeCurrent (fun _ _ => True) := by
-  unfold takeCurrent
-  hoare
+theorem setCurrent_spec : T src Tr (setCurrent none) (fun _ _ => True) :=
+  setCurrentReal_spec none TokReal.none
+
+/-- the token taken from the parser is a token of the source -/
+theorem takeCurrent_spec : T src Tr takeCurrent (fun c _ => TokReal src c) := by
+  intro s hi _
+  exact ⟨hi.setCurrent none TokReal.none, hi.cur⟩
 
 theorem errorAt_scan_loc (s2 : Scanner) (pos : Nat) (reason : String) (e : ScanErr)
     (h : s2.errorAt pos reason = .scan e) : s2.lineInfo pos = .ok e.loc := by
@@ -77,7 +84,7 @@ theorem nextToken_error_loc (sc : Scanner) (e : ScanErr) (h : sc.nextToken.1 = .
 /-- `scan_next` from any state over `src`: afterwards the invariant holds -/
 theorem scanNext_establishes (s : PState) (hs : Inv0 src s) :
     match scanNext s with
-    | (.ok a, s') => Inv src s' ∧ CommentFacts a s'
+    | (.ok a, s') => Inv src s' ∧ CommentFacts a s' ∧ TokReal src a
     | (.error e, s') => ErrOK e s' ∧ Inv0 src s' := by
   have e : scanNext s = liftS s.scan.nextToken.1
       { s with prevPos := s.scan.preback, scan := s.scan.nextToken.2, steps := s.steps + 1 } := rfl
@@ -85,10 +92,14 @@ theorem scanNext_establishes (s : PState) (hs : Inv0 src s) :
   have hsrc : s.scan.nextToken.2.src = src := by rw [nextToken_src, hs.src_eq]
   have hmono := nextToken_pos_mono s.scan
   have h0 : Inv0 src { s with prevPos := s.scan.preback, scan := s.scan.nextToken.2, steps := s.steps + 1 } :=
-    ⟨hsrc, hs.sorted, fun c hc => Nat.lt_of_lt_of_le (hs.below c hc) hmono⟩
+    ⟨hsrc, hs.sorted, fun c hc => Nat.lt_of_lt_of_le (hs.below c hc) hmono, hs.real, hs.cur⟩
   cases hr : s.scan.nextToken.1 with
   | ok v =>
-    refine ⟨⟨h0, ?_⟩, ?_⟩
+    refine ⟨⟨h0, ?_⟩, ?_, ?_⟩
+    rotate_left 2
+    · intro p t hv
+      subst hv
+      exact ⟨s.scan, s.scan.nextToken.2, hs.src_eq, by rw [← hr]⟩
     · intro sc h1 h2 h3
       exact nextToken_ok_congr s.scan sc (by rw [hs.src_eq, h1]) h2.symm h3.symm ⟨v, hr⟩
     · intro p t hv
@@ -96,7 +107,8 @@ theorem scanNext_establishes (s : PState) (hs : Inv0 src s) :
       have hnt : s.scan.nextToken = (.ok (some (p, .comment t)), s.scan.nextToken.2) := by
         rw [← hr]
       obtain ⟨h1, h2⟩ := nextToken_comment s.scan _ p t hnt
-      exact ⟨fun c hc => Nat.lt_of_lt_of_le (hs.below c hc) h1, h2⟩
+      exact ⟨fun c hc => Nat.lt_of_lt_of_le (hs.below c hc) h1, h2,
+        ⟨s.scan, s.scan.nextToken.2, t, by rw [hsrc, hs.src_eq], hnt, rfl⟩⟩
   | error er =>
     cases er with
     | scan e' =>
@@ -104,7 +116,7 @@ theorem scanNext_establishes (s : PState) (hs : Inv0 src s) :
       exact nextToken_error_loc s.scan e' hr
     | panic site => exact absurd hr (Gosyn.Props.C01.nextToken_no_panic s.scan site)
 
-theorem scanNext_spec : T src Tr scanNext (fun a s => CommentFacts a s) := by
+theorem scanNext_spec : T src Tr scanNext (fun a s => CommentFacts a s ∧ TokReal src a) := by
   intro s hi _
   have := scanNext_establishes (src := src) s hi.toInv0
   cases hsn : scanNext s with
@@ -119,9 +131,9 @@ theorem trueLine_spec {R : PState → Prop} (pos : Nat) : T src R (trueLine pos)
 
 /-- pushing a freshly scanned comment keeps the list strictly increasing and before the scanner -/
 theorem push_comment_inv {s : PState} (hi : Inv src s) (c : Comment)
-    (h1 : ∀ x ∈ s.comments.toList, x.pos < c.pos) (h2 : c.pos < s.scan.pos) :
+    (h1 : ∀ x ∈ s.comments.toList, x.pos < c.pos) (h2 : c.pos < s.scan.pos) (h3 : RealComment src c) :
     Inv src { s with comments := s.comments.push c } := by
-  refine ⟨⟨hi.src_eq, ?_, ?_⟩, hi.mark⟩
+  refine ⟨⟨hi.src_eq, ?_, ?_, ?_, hi.cur⟩, hi.mark⟩
   · simp only [Array.toList_push, List.map_append, List.map_cons, List.map_nil]
     rw [List.pairwise_append]
     refine ⟨hi.sorted, by simp, ?_⟩
@@ -135,41 +147,79 @@ theorem push_comment_inv {s : PState} (hi : Inv src s) (c : Comment)
     rcases hx with hx | rfl
     · exact hi.below x hx
     · exact h2
+  · intro x hx
+    simp only [Array.toList_push, List.mem_append, List.mem_singleton] at hx
+    rcases hx with hx | rfl
+    · exact hi.real x hx
+    · exact h3
 
 theorem T.push_comment {R : PState → Prop} (c : Comment)
-    (h : ∀ s, R s → (∀ x ∈ s.comments.toList, x.pos < c.pos) ∧ c.pos < s.scan.pos) :
+    (h : ∀ s, R s → (∀ x ∈ s.comments.toList, x.pos < c.pos) ∧ c.pos < s.scan.pos ∧ RealComment s.scan.src c) :
     T src R (P.modify fun s => { s with comments := s.comments.push c }) (fun _ _ => True) := by
   intro s hi hr
-  obtain ⟨h1, h2⟩ := h s hr
-  exact ⟨push_comment_inv hi c h1 h2, trivial⟩
+  obtain ⟨h1, h2, h3⟩ := h s hr
+  exact ⟨push_comment_inv hi c h1 h2 (hi.src_eq ▸ h3), trivial⟩
 
 theorem commentLoop_spec : ∀ (fuel line : Nat) (trailing : Option Nat) (posTok : Option (Nat × Token)),
-    T src (CommentFacts posTok) (commentLoop fuel line trailing posTok) (fun _ _ => True) := by
+    TokReal src posTok →
+    T src (CommentFacts posTok) (commentLoop fuel line trailing posTok) (fun r _ => TokReal src r) := by
   intro fuel
   induction fuel with
-  | zero => intro line trailing posTok; unfold commentLoop; exact T.throw _ (fun _ _ => trivial)
+  | zero => intro line trailing posTok _; unfold commentLoop; exact T.throw _ (fun _ _ => trivial)
   | succ n ih =>
-    intro line trailing posTok
+    intro line trailing posTok hreal
     unfold commentLoop
     split
     · rename_i pos text
       refine T.bind (trueLine_spec pos) (fun startLine => ?_)
       dsimp only
-      refine T.ite (fun _ => T.bind (T.modifyF _ (fun _ => ⟨rfl, rfl, rfl⟩) (fun _ h => h)) (fun _ => ?_)) (fun _ => ?_)
+      refine T.ite (fun _ => T.bind (T.modifyF _ (fun _ => ⟨rfl, rfl, rfl, rfl⟩) (fun _ h => h)) (fun _ => ?_)) (fun _ => ?_)
       all_goals (
         refine T.bind scanPosition_spec (fun ended => ?_)
         refine T.bind (trueLine_spec ended) (fun line' => ?_)
         refine T.bind (Q1 := fun _ _ => True)
           (T.pre (T.push_comment _ (fun s h => h)) (fun s hs => (hs.2 pos text rfl))) (fun _ => ?_)
         hoare
-        all_goals first | exact ih _ _ _ | skip)
-    · hoare
+        all_goals first
+          | exact T.extract (p := TokReal src _) (fun s h => h.2) (fun hp => (ih _ _ _ hp).pre (fun s h => h.1))
+          | skip)
+    · exact T.pure _ (fun _ _ => hreal)
+
+open P in
+/-- the part of `next` after the first scan -/
+def nextTail (trailing : Option Nat) (posTok : Option (Nat × Token)) : P Unit := do
+  let fuel := (← get).scan.src.size + 2
+  let posTok ← commentLoop fuel 0 trailing posTok
+  let s ← get
+  if let some comment := s.leadComments.back? then
+    let commentEndPos := comment.pos + comment.text.length
+    let commentEndLine ← trueLine commentEndPos
+    if let some (pos, _) := posTok then
+      let tokenStartLine ← trueLine pos
+      if tokenStartLine > commentEndLine + 1 then modify fun s => { s with leadComments := #[] }
+  setCurrent posTok
+
+open P in
+theorem next_eq : next = (do
+  let trailing ← if (← get).started then do pure (some (← trueLine (← scanPosition))) else pure none
+  modify fun s => { s with started := true }
+  let posTok ← scanNext
+  nextTail trailing posTok) := rfl
+
+theorem nextTail_spec (tr : Option Nat) (pt : Option (Nat × Token)) (hreal : TokReal src pt) :
+    T src (CommentFacts pt) (nextTail tr pt) (fun _ _ => True) := by
+  unfold nextTail
+  refine T.bind T.get (fun st => ?_)
+  refine T.bindP ((commentLoop_spec _ _ _ _ hreal).pre (fun s h => h.2)) ⟨fun posTok hpt => ?_⟩
+  hoare
+  all_goals first | exact setCurrentReal_spec _ hpt | skip
 
 theorem next_spec : T src Tr next (fun _ _ => True) := by
-  unfold next
+  rw [next_eq]
   hoare
-  all_goals first | exact (commentLoop_spec _ _ _ _).pre (fun s h => h.2) | skip
-  hoare
+  all_goals first
+    | exact T.extract (p := TokReal src _) (fun s h => h.2) (fun hp => (nextTail_spec _ _ hp).pre (fun s h => h.1))
+    | skip
 
 theorem preback_spec {R : PState → Prop} : T src R preback (fun a _ => GoodMark src a) := by
   intro s hi _
@@ -212,7 +262,12 @@ theorem goback_establishes (prev : Nat × Bool) (hg : GoodMark src prev) (s : PS
     leadComments := s.leadComments.filter (·.pos < prev.1),
     scan := s.scan.goback prev }
   have h01 : Inv0 src s1 := by
-    refine ⟨hsrc, ?_, ?_⟩
+    refine ⟨hsrc, ?_, ?_, ?_, hs.cur⟩
+    rotate_left 2
+    · intro c hc
+      have hc' : c ∈ (s.comments.filter (·.pos < prev.1)).toList := hc
+      rw [Array.toList_filter, List.mem_filter] at hc'
+      exact hs.real c hc'.1
     · show ((s.comments.filter (·.pos < prev.1)).toList.map (·.pos)).Pairwise (· < ·)
       rw [Array.toList_filter]
       exact (hs.sorted.sublist ((List.filter_sublist).map _))
@@ -238,7 +293,7 @@ theorem goback_establishes (prev : Nat × Bool) (hg : GoodMark src prev) (s : PS
   have hp : ∀ st : PState, (Pure.pure v : P (Option (Nat × Token))) st = (.ok v, st) := fun _ => rfl
   rw [hp] at hest ⊢
   simp only at hest ⊢
-  exact hest.1.congr rfl rfl rfl
+  exact hest.1.setCurrent v hest.2.2
 
 /-- after a caught error: going back to a good mark re-establishes the invariant -/
 theorem T0.goback_bind {β} {R : PState → Prop} (prev : Nat × Bool) (hg : GoodMark src prev) {k : Unit → P β}
@@ -258,7 +313,7 @@ theorem T0.goback_bind {β} {R : PState → Prop} (prev : Nat × Bool) (hg : Goo
 
 /-- after a caught error: a step that does not look at the mark (level bookkeeping), then an error -/
 theorem T0.modify_throw {β} {R : PState → Prop} (f : PState → PState)
-    (hf : ∀ s, (f s).scan = s.scan ∧ (f s).comments = s.comments)
+    (hf : ∀ s, (f s).scan = s.scan ∧ (f s).comments = s.comments ∧ (f s).current = s.current)
     (e : PErr) (he : ∀ s, R s → ErrOK e s)
     {Q : β → PState → Prop} : T0 src R (P.modify f >>= fun _ => (P.throw e : P β)) Q := by
   intro s hs hr
@@ -266,10 +321,10 @@ theorem T0.modify_throw {β} {R : PState → Prop} (f : PState → PState)
     | (.ok a, s') => Inv src s' ∧ Q a s'
     | (.error e, s') => ErrOK e s' ∧ Inv0 src s'
   simp only [Bind.bind, P.modify, P.throw]
-  exact ⟨(he s hr).congr (hf s).1, hs.congr (hf s).1 (hf s).2⟩
+  exact ⟨(he s hr).congr (hf s).1, hs.congr (hf s).1 (hf s).2.1 (hf s).2.2⟩
 
 macro_rules | `(tactic| hstep0) => `(tactic| (with_reducible refine T0.goback_bind _ (by assumption) ?_))
-macro_rules | `(tactic| hstep0) => `(tactic| (unfold decExprLevel; refine T0.modify_throw _ ?_ _ ?_; (intro _; exact ⟨rfl, rfl⟩); (intros; simp_all)))
+macro_rules | `(tactic| hstep0) => `(tactic| (unfold decExprLevel; refine T0.modify_throw _ ?_ _ ?_; (intro _; exact ⟨rfl, rfl, rfl⟩); (intros; simp_all)))
 
 theorem goback_spec (prev : Nat × Bool) (hg : GoodMark src prev) : T src Tr (goback prev) (fun _ _ => True) := by
   intro s hi _
@@ -297,7 +352,7 @@ theorem drainComments_spec : T src Tr drainComments (fun _ _ => True) := by
   refine T.set _ ?_
   intro s hi hr
   obtain ⟨rfl, _⟩ := hr
-  exact ⟨hi.congr rfl rfl rfl, trivial⟩
+  exact ⟨hi.congr rfl rfl rfl rfl, trivial⟩
 
 theorem lineEndComment_spec : T src Tr lineEndComment (fun _ _ => True) := by
   unfold lineEndComment
@@ -311,18 +366,35 @@ theorem lineEndComment_spec : T src Tr lineEndComment (fun _ _ => True) := by
   split
   · hoare
   · rename_i p text
-    refine T.bind (T.modifyF _ (fun _ => ⟨rfl, rfl, rfl⟩) (fun _ h => h)) (fun _ => ?_)
+    refine T.bind (T.modifyF _ (fun _ => ⟨rfl, rfl, rfl, rfl⟩) (fun _ h => h)) (fun _ => ?_)
     refine T.bind (trueLine_spec p) (fun line1 => ?_)
     refine T.ite (fun _ => ?_) (fun _ => ?_)
     · refine T.bind (Q1 := fun _ _ => True)
-        (T.pre (T.push_comment _ (fun s h => h)) (fun s hs => (hs p text rfl))) (fun _ => ?_)
+        (T.pre (T.push_comment _ (fun s h => h)) (fun s hs => (hs.1 p text rfl))) (fun _ => ?_)
       hoare
     · hoare
   · hoare
 
-theorem identifier_spec (site : String) : T src Tr (identifier site) (fun _ _ => True) := by
+/-- an identifier node whose name and offset are those of an identifier token of the source -/
+def RealIdent (src : Array Char) (id : Ident) : Prop :=
+  ∃ name, id.name = String.ofList name ∧ RealTok src id.pos (.literal .Ident name)
+
+/-- a literal node whose kind, text and offset are those of a literal token of the source -/
+def RealLit (src : Array Char) (l : BasicLit) : Prop :=
+  ∃ value, l.value = String.ofList value ∧ RealTok src l.pos (.literal l.kind value)
+
+def RealStr (src : Array Char) (l : StringLit) : Prop :=
+  ∃ value, l.value = String.ofList value ∧ RealTok src l.pos (.literal .String value)
+
+/-- **no identifier is invented**: every `Ident` the parser creates carries the text and the offset of an
+    identifier token that the scanner produces from the source -/
+theorem identifier_spec (site : String) : T src Tr (identifier site) (fun id _ => RealIdent src id) := by
   unfold identifier
-  hoare
+  refine T.bindP takeCurrent_spec ⟨fun cur hcur => ?_⟩
+  split
+  · rename_i pos name
+    exact T.bind (T.anyQ next_spec) (fun _ => T.pure _ (fun _ _ => ⟨name, rfl, hcur _ _ rfl⟩))
+  · hoare
 
 theorem loopFuel_spec {R : PState → Prop} : T src R loopFuel (fun _ s => R s) := by
   unfold loopFuel
@@ -349,9 +421,13 @@ theorem stringLiteralOrNone_spec : T src Tr stringLiteralOrNone (fun _ _ => True
   unfold stringLiteralOrNone
   hoare
 
-theorem stringLiteral_spec : T src Tr stringLiteral (fun _ _ => True) := by
+theorem stringLiteral_spec : T src Tr stringLiteral (fun l _ => RealStr src l) := by
   unfold stringLiteral
-  hoare
+  refine T.bindP takeCurrent_spec ⟨fun cur hcur => ?_⟩
+  split
+  · rename_i pos value
+    exact T.bind (T.anyQ next_spec) (fun _ => T.pure _ (fun _ _ => ⟨value, rfl, hcur _ _ rfl⟩))
+  · hoare
 
 /-! ### `Expression::pos()` never meets `List` -/
 
